@@ -70,6 +70,13 @@ def parseSpecWhy (src : Bytes) (complete : Bool) (o : ParseObs) : Option String 
   else if !o.reOk || o.reCount != o.count || o.reCrc != o.crc || !o.reSame then some "reparse-unstable"
   else none
 
+/-- What the parser harness observes when the implementation behaves like the model. -/
+def parseObsOf (src : Bytes) (complete : Bool) : ParseObs :=
+  ⟨(parse src complete).err.isNone, (parse src complete).st.count, (parse src complete).st.crc,
+   (parse src complete).out, (parse (parse src complete).out true).err.isNone,
+   (parse (parse src complete).out true).st.count, (parse (parse src complete).out true).st.crc,
+   (parse (parse src complete).out true).out == (parse src complete).out⟩
+
 /-! ### Refresh -/
 
 /-- The download is one of the enumerated failures. -/
